@@ -81,7 +81,7 @@ def main(tier):
     json.dump({'chunk': 25, 'recs': recs}, open(rf, 'w'))
     r = V.tlc(HT, os.path.join(LC.SP, 'Hyperedge.cfg'), env={'HYPERRECS': rf, 'HYPERGEN': '/dev/null'}, timeout=3000, cont=True, mem='16g')
     ev.add_tlc('Hyperedge: %d snapshots after registration' % len(recs), r)
-    nontriv = sum(int(m.group(2)) for m in re.finditer(r'<<"STAT", "hyper", (\d+), (\d+)>>', r.out))
+    nontriv = sum(v[0] for v in V.stat(r.out, 'hyper'))
     for inv, st in V.violating_states(r):
         for (i, t) in st.get('bad', []):
             sc = scs[meta[i - 1]]
